@@ -204,7 +204,15 @@ def _guard_tests(f: FuncInfo, node: ast.AST) -> List[Tuple[ast.AST, bool]]:
                         return True
                     if rec(st.orelse, acc + [(st.test, False)]):
                         return True
-                elif isinstance(st, (ast.For, ast.While, ast.With, ast.Try)):
+                elif isinstance(st, ast.While):
+                    if any(x is node for x in ast.walk(st.test)):
+                        out.extend(acc)
+                        return True
+                    if rec(st.body, acc + [(st.test, True)]):
+                        return True
+                    if rec(st.orelse, acc + [(st.test, False)]):
+                        return True
+                elif isinstance(st, (ast.For, ast.With, ast.Try)):
                     for blk in ("body", "orelse", "finalbody"):
                         if rec(getattr(st, blk, []) or [], acc):
                             return True
